@@ -2,7 +2,8 @@
 import sys, os, json
 sys.path.insert(0, os.path.dirname(os.path.dirname(os.path.abspath(__file__))))
 os.environ.setdefault('VERIF_REPO', sys.argv[0] and os.environ.get('VERIF_REPO', '/repo'))
-from mc import boot
+from mc import boot, seams
+seams.process_environment()
 boot.bind()
 from mc.checks import C12
 print(json.dumps(C12.pure_reference(sys.argv[1])))
